@@ -121,7 +121,7 @@ class Model:
         """(verdict, number of leading elements applied) on the current model state, without
         changing it.  Bulk ops are a left fold that stops at the first failing element."""
         k = op[0]
-        if k in ('node', 'nodes', 'uattr', 'uattrs', 'observe', 'clear', 'clear_edges'):
+        if k in ('node', 'nodes', 'nodes2', 'uattr', 'uattrs', 'observe', 'clear', 'clear_edges'):
             return 'ok', 0
         els = self.elements(op)
         if k == 'bulk' and op[4] is None:
@@ -151,6 +151,13 @@ class Model:
                 n = node_of(c, i)
                 self._touch(n)
                 self.attrs[n].update(copy.deepcopy(ATTRS[op[2]]))
+            return
+        if k == 'nodes2':
+            from .universes import ATTRS2
+            for i in op[1]:
+                n = node_of(c, i)
+                self._touch(n)
+                self.attrs[n].update(dict(ATTRS2))
             return
         if k == 'observe':
             return
